@@ -118,6 +118,23 @@ def lookupCost (m : CostMap) (i : Nat) : Except Err OpCost :=
 
 def sumNat (l : List Nat) : Nat := l.foldl (· + ·) 0
 
+/-! ## `SchedulerOperation.create_scheduler_info`: the stripe input -/
+
+def Shape4.withHW (s : Shape4) (h w : Nat) : Shape4 := { s with h := h, w := w }
+
+/-- `create_scheduler_info(nng, stripe)`: `stripe_input` and `stripe_input2` (`SchedulerOpInfo` arguments 3 and 4).
+    `sy sx` = kernel strides, `areaH areaW` = dilated kernel size, `upscale`/`nearest` = `to_upscale` / `is_nearest` of the
+    resampling mode; `_get_stripe_input_requirement` = `Box.getIfmAreaRequired` (C10's model of `get_ifm_area_required`),
+    clamped to the IFM ("Ensure stripe input volume is within the full IFM volume") -/
+def stripeInputs (ofmShape stripe ifmShape : Shape4) (ifm2Shape : Option Shape4) (sy sx areaH areaW upscale : Int) (nearest : Bool) :
+    Shape4 × Option Shape4 :=
+  if stripe != ofmShape then
+    let req := Box.getIfmAreaRequired stripe.h stripe.w sy sx areaH areaW upscale nearest
+    let h := (min req.2 ifmShape.h).toNat
+    let w := (min req.1 ifmShape.w).toNat
+    (ifmShape.withHW h w, ifm2Shape.map fun s2 => s2.withHW (min h s2.h) (min w s2.w))
+  else (ifmShape, ifm2Shape)
+
 /-! ## `BufferMap` -/
 
 abbrev BufKey := Option Nat × Option Nat
